@@ -147,6 +147,27 @@ def gen2(data: bytes):
         ma, mb = m.copy(), m.copy()
         ma.set_bond_stereo(d1)
         mb.set_bond_stereo(d2)
+    if sur and tp.chance(80):
+        # descriptors with unspecified parity elsewhere in the molecule
+        # (places that could hold stereo but whose configuration is open):
+        # the same in both isomers
+        core = set(ids[:6])
+        for a in tp.shuffle(sur)[:1 + tp.below(3)]:
+            d = S.atom_desc(tp, a, sorted(ma.neighbours(a)), none_parity=256,
+                            allow2=False)
+            if d is not None and not (set(d[1]) & core):
+                ma.set_atom_stereo(d)
+                mb.set_atom_stereo(d)
+        for b in tp.shuffle(sorted(ma.bonds, key=sorted))[:2 + tp.below(3)]:
+            p_, q_ = sorted(b)
+            if {p_, q_} & core:
+                continue
+            d = S.bond_desc(tp, p_, q_, sorted(ma.neighbours(p_) - {q_}),
+                            sorted(ma.neighbours(q_) - {p_}),
+                            none_parity=256, p_atrop=0)
+            if d is not None and not (set(d[1]) & core):
+                ma.set_bond_stereo(d)
+                mb.set_bond_stereo(d)
     rb, _ = S.variant_from(mb, list(S.renaming(tp, mb.atoms).items()),
                            tp.below(1 << 30))
     return {"fam": 2, "unit": unit, "a": S.shuffled_recipe(tp, ma), "b": rb}
@@ -154,7 +175,9 @@ def gen2(data: bytes):
 
 def _single_unit_ok(case, ma, mb):
     """family 2 membership, re-checked on the (possibly shrunk) case"""
-    da, db = list(ma.all_descs()), list(mb.all_descs())
+    da = [x for x in ma.all_descs() if x[3][2] is not None]
+    db = [x for x in mb.all_descs() if x[3][2] is not None]
+    # any further descriptor has unspecified parity (no configuration)
     if len(da) != 1 or len(db) != 1 or ma.cls != "SMG" or mb.cls != "SMG":
         return False
     d = da[0][3]
@@ -208,14 +231,14 @@ def check_case(ctx, case):
             if not iso.exists(ma, mb, stereo=False, changes=False) or \
                     iso.exists(ma, mb):
                 raise HarnessError("C16 family 2: not the two stereoisomers")
-        unit = next(iter(ma.all_descs()))[3][0]
+        unit = next(x for x in ma.all_descs() if x[3][2] is not None)[3][0]
         sig = f"C16/SMG/family2/{unit}/stereoisomers-same-hash"
     a, b = rc.build(case["a"]), rc.build(case["b"])
     with guard(f"C16/{ma.cls}/hash"):
         ha, hb = hash(a), hash(b)
     if ha == hb:
         raise Violation(sig, f"both hash to {ha}")
-    if case["fam"] == 2:
+    if case["fam"] == 2 and len(list(ma.all_descs())) == 1:
         # the hash-based stereoisomer generator must find both isomers of
         # the unit when its parity is left open
         from stereomolgraph.experimental import generate_stereoisomers
